@@ -14,12 +14,21 @@ pub const OP_WORK_PUT: u64 = 2;
 pub const OP_HEALTH: u64 = 3;
 
 async fn do_work(
-    rqctx: &RequestContext<SimCtx>,
+    rqctx: RequestContext<SimCtx>,
     op: u64,
     body: Option<&[u8]>,
 ) -> Result<Response<Body>, HttpError> {
     let h = parse_sim(rqctx.request.headers());
-    let g = HGuard::enter(&rqctx.context().world, h.nonce, op);
+    let world = rqctx.context().world.clone();
+    let g = HGuard::enter(&world, h.nonce, op);
+    // A handler may let go of its request context (and with it its reference
+    // to the server state) as soon as it has what it needs.
+    let keep = if h.flags & 1 == 1 {
+        drop(rqctx);
+        None
+    } else {
+        Some(rqctx)
+    };
     for i in 0..h.steps {
         tokio::time::sleep(std::time::Duration::from_millis(h.step_ms)).await;
         g.step(u64::from(i) + 1);
@@ -44,6 +53,7 @@ async fn do_work(
     }
     out.push_str("\"}");
     g.finish();
+    drop(keep);
     Ok(Response::builder()
         .status(200)
         .header("content-type", "application/json")
@@ -55,7 +65,7 @@ async fn do_work(
 async fn work_get(
     rqctx: RequestContext<SimCtx>,
 ) -> Result<Response<Body>, HttpError> {
-    do_work(&rqctx, OP_WORK_GET, None).await
+    do_work(rqctx, OP_WORK_GET, None).await
 }
 
 #[endpoint { method = PUT, path = "/work", request_body_max_bytes = 1048576 }]
@@ -63,14 +73,14 @@ async fn work_put(
     rqctx: RequestContext<SimCtx>,
     body: UntypedBody,
 ) -> Result<Response<Body>, HttpError> {
-    do_work(&rqctx, OP_WORK_PUT, Some(body.as_bytes())).await
+    do_work(rqctx, OP_WORK_PUT, Some(body.as_bytes())).await
 }
 
 #[endpoint { method = GET, path = "/health" }]
 async fn health(
     rqctx: RequestContext<SimCtx>,
 ) -> Result<Response<Body>, HttpError> {
-    do_work(&rqctx, OP_HEALTH, None).await
+    do_work(rqctx, OP_HEALTH, None).await
 }
 
 pub fn register(api: &mut ApiDescription<SimCtx>) {
